@@ -12,6 +12,30 @@ use std::io::{BufRead, Write};
 mod ops;
 mod util;
 
+/// counting allocator: peak live bytes per case (C04 / C12 memory bound)
+pub struct Counting;
+pub static CUR: std::sync::atomic::AtomicUsize = std::sync::atomic::AtomicUsize::new(0);
+pub static PEAK: std::sync::atomic::AtomicUsize = std::sync::atomic::AtomicUsize::new(0);
+
+unsafe impl std::alloc::GlobalAlloc for Counting {
+    unsafe fn alloc(&self, l: std::alloc::Layout) -> *mut u8 {
+        use std::sync::atomic::Ordering::Relaxed;
+        let p = unsafe { std::alloc::System.alloc(l) };
+        if !p.is_null() {
+            let c = CUR.fetch_add(l.size(), Relaxed) + l.size();
+            PEAK.fetch_max(c, Relaxed);
+        }
+        p
+    }
+    unsafe fn dealloc(&self, p: *mut u8, l: std::alloc::Layout) {
+        CUR.fetch_sub(l.size(), std::sync::atomic::Ordering::Relaxed);
+        unsafe { std::alloc::System.dealloc(p, l) }
+    }
+}
+
+#[global_allocator]
+static ALLOC: Counting = Counting;
+
 thread_local! {
     pub static LAST_PANIC: RefCell<String> = const { RefCell::new(String::new()) };
 }
@@ -65,14 +89,21 @@ fn run() {
             continue;
         }
         let (op, f) = util::fields(line);
+        let measure = f.contains_key("alloc");
+        let base = CUR.load(std::sync::atomic::Ordering::Relaxed);
+        PEAK.store(base, std::sync::atomic::Ordering::Relaxed);
         let res = std::panic::catch_unwind(std::panic::AssertUnwindSafe(|| ops::dispatch(&op, &f)));
+        let peak = PEAK.load(std::sync::atomic::Ordering::Relaxed).saturating_sub(base);
+        let tail = if measure { format!(" peak={}", peak) } else { String::new() };
         match res {
-            Ok(s) => writeln!(out, "{}", s).unwrap(),
+            Ok(s) => writeln!(out, "{}{}", s, tail).unwrap(),
             Err(_) => {
                 let p = LAST_PANIC.with(|p| p.borrow().clone());
                 writeln!(out, "panic {}", p).unwrap()
             }
         }
+        // one line at a time, so that a hang or an abort can be attributed to its case
+        out.flush().unwrap();
     }
     out.flush().unwrap();
 }
